@@ -497,7 +497,7 @@ blocked by the relay for at most one ping interval. -/
 theorem e_no_deadlock (s : EState) (hd : s.mpc ≠ .done) :
     eenabled s .main = true ∨ eenabled s .timer = true := by
   obtain ⟨n, fails, produced, gen, cleanups, disc, closed, wpc, wcancel, mpc, render, cur, q, stop,
-    rpc, rcancel, failed, taken, delivered, pings, finalSent, excPending, raised⟩ := s
+    rpc, rcancel, failed, taken, delivered, pings, finalSent, excPending, raised, acl⟩ := s
   cases mpc <;> simp only [ne_eq, not_true_eq_false, reduceCtorEq, not_false_eq_true] at hd
   all_goals (simp only [eenabled, estep, emain])
   case rsGet => cases q <;> simp
@@ -507,7 +507,7 @@ theorem e_no_deadlock (s : EState) (hd : s.mpc ≠ .done) :
 theorem e_closed_stable {s s' : EState} {t : ETid} (hc : s.closed = true)
     (hs : estep t s = some s') : s'.closed = true := by
   obtain ⟨n, fails, produced, gen, cleanups, disc, closed, wpc, wcancel, mpc, render, cur, q, stop,
-    rpc, rcancel, failed, taken, delivered, pings, finalSent, excPending, raised⟩ := s
+    rpc, rcancel, failed, taken, delivered, pings, finalSent, excPending, raised, acl⟩ := s
   simp only at hc
   subst hc
   cases t
@@ -537,7 +537,7 @@ timeout included — for every schedule; it is bounded by 100, independently of 
 theorem e_rank_decreases {s s' : EState} {t : ETid} (hc : s.closed = true)
     (hs : estep t s = some s') : erank s' < erank s := by
   obtain ⟨n, fails, produced, gen, cleanups, disc, closed, wpc, wcancel, mpc, render, cur, q, stop,
-    rpc, rcancel, failed, taken, delivered, pings, finalSent, excPending, raised⟩ := s
+    rpc, rcancel, failed, taken, delivered, pings, finalSent, excPending, raised, acl⟩ := s
   simp only at hc
   subst hc
   cases t
@@ -569,7 +569,7 @@ theorem e_rank_decreases {s s' : EState} {t : ETid} (hc : s.closed = true)
 
 theorem e_rank_bounded (s : EState) : erank s ≤ 100 := by
   obtain ⟨n, fails, produced, gen, cleanups, disc, closed, wpc, wcancel, mpc, render, cur, q, stop,
-    rpc, rcancel, failed, taken, delivered, pings, finalSent, excPending, raised⟩ := s
+    rpc, rcancel, failed, taken, delivered, pings, finalSent, excPending, raised, acl⟩ := s
   simp only [erank]
   cases mpc <;> cases rpc <;> simp [EPc.pos, ERPc.base] <;> (repeat' split) <;> omega
 
@@ -580,7 +580,7 @@ theorem e_one_ping {s s' : EState} {t : ETid} (hc : s.closed = true)
     (hs : estep t s = some s') :
     s'.mpc.pos ≤ s.mpc.pos ∧ (t = .timer → s.mpc = .rsGet ∧ s'.mpc.pos < EPc.rsGet.pos) := by
   obtain ⟨n, fails, produced, gen, cleanups, disc, closed, wpc, wcancel, mpc, render, cur, q, stop,
-    rpc, rcancel, failed, taken, delivered, pings, finalSent, excPending, raised⟩ := s
+    rpc, rcancel, failed, taken, delivered, pings, finalSent, excPending, raised, acl⟩ := s
   simp only at hc
   subst hc
   cases t
@@ -621,10 +621,10 @@ theorem e_finished_released {n : Nat} {fails : Bool} {s : EState} (hr : EReachab
       (s.gen = .fresh ∧ s.cleanups = 0 ∧ s.produced = 0) ∨ (s.gen = .finished ∧ s.cleanups = 1)) := by
   have h := (ereachable_inv hr).1
   obtain ⟨n, fails, produced, gen, cleanups, disc, closed, wpc, wcancel, mpc, render, cur, q, stop,
-    rpc, rcancel, failed, taken, delivered, pings, finalSent, excPending, raised⟩ := s
+    rpc, rcancel, failed, taken, delivered, pings, finalSent, excPending, raised, acl⟩ := s
   obtain ⟨h1, h2, h3, h4, h5, h6, h7, h8, h9, h10, h11, h12, h13, h14, h15, h16, h17, h18, h19,
-    h20, h21, h22, h23, h24, h25⟩ := h
-  simp only at hf h1 h2 h3 h4 h5 h6 h7 h8 h9 h10 h11 h12 h13 h14 h15 h16 h17 h18 h19 h20 h21 h22 h23 h24 h25
+    h20, h21, h22, h23, h24, h25, h26, h27⟩ := h
+  simp only at hf h1 h2 h3 h4 h5 h6 h7 h8 h9 h10 h11 h12 h13 h14 h15 h16 h17 h18 h19 h20 h21 h22 h23 h24 h25 h26 h27
   subst hf
   refine ⟨by simp_all, ?_, ?_, ?_⟩
   · cases render
@@ -708,11 +708,40 @@ example :
     s.mpc = .done ∧ s.pings = 1 ∧ s.rpc = .done ∧ s.gen = .fresh ∧ s.cleanups = 0 := by decide
 
 /-- the relay blocked in the sentinel put of its `finally` when the disconnect arrives: the
-cancellation skips `aclose()`, but the producer had already finished (cleanup ran once) -/
+cancellation lands inside that put, and the inner `finally` still calls `aclose()` on the user's
+iterable (before /repo `9efa28d` it was skipped: harmless for a generator that had finished by itself,
+a leak for an iterator object whose cleanup is its `aclose()`) -/
 example :
     let s := erun [.main, .main, .main, .relay, .relay, .relay, .main, .relay, .relay, .main,
       .disconnect, .watcher, .main, .main, .main, .main, .relay] (einit 2 false)
-    s.mpc = .done ∧ s.rpc = .done ∧ s.cleanups = 1 ∧ s.q = .empty ∧ s.delivered = [0] := by decide
+    s.mpc = .done ∧ s.rpc = .done ∧ s.cleanups = 1 ∧ s.q = .empty ∧ s.delivered = [0] ∧ s.acl = 1 := by
+  decide
+
+/-- **C06.E3b the iterable is released exactly once.**  In every reachable state the relay has called
+`aclose()` on the user's iterable at most once; not at all while it is still running; and exactly once
+when it has finished - unless it was cancelled before it ever ran (the producer is still fresh).  This is
+the statement that covers producers that are iterator OBJECTS (their cleanup is that call), which
+`e_finished_released` - stated on the generator's own state - does not. -/
+theorem e_aclose_exactly_once {n : Nat} {fails : Bool} {s : EState} (hr : EReachable n fails s) :
+    s.acl ≤ 1 ∧ (s.rpc ≠ .done → s.acl = 0) ∧ (s.rpc = .done → s.gen ≠ .fresh → s.acl = 1) := by
+  have h := (ereachable_inv hr).1
+  have h1 := h.aclLive
+  have h2 := h.aclDone
+  refine ⟨?_, h1, ?_⟩
+  · by_cases hd : s.rpc = .done
+    · rcases h2 hd with h | ⟨_, h⟩ <;> omega
+    · have := h1 hd; omega
+  · intro hd hg
+    rcases h2 hd with h | ⟨hf, _⟩
+    · exact h
+    · exact absurd hf hg
+
+/-- non-vacuity: a finished relay over a started producer (closed by the response, mid-stream) -/
+example :
+    let s := erun [.main, .main, .main, .relay, .relay, .relay, .main, .relay, .relay,
+      .disconnect, .watcher, .main, .main, .main, .main, .main, .relay] (einit 5 false)
+    s.rpc = .done ∧ s.gen = .finished ∧ s.acl = 1 ∧ s.cleanups = 1 := by
+  decide
 
 end Baize.StreamAsgi
 
